@@ -19,6 +19,8 @@ CLAUSES = [
     "We saw a tset here.", "I recieve mail daily.", "It is better then that.", "She ate an apple and a apple.", "This is the the end.", "Then teh cat sat down.", "There are alot of things.",
     "He could of been there.", "It was the 2rd place.", "The wrold is big.", "café menus list cofee often.", "\U0001F600 an mispeled word appears.", "They is is late.", "We went too the shop.",
     "A gardden grows.", "Its a tabel for four.",
+    # one clause per kind of lint the rules produce (the server passes the whole lint through JSON and back)
+    "However ,this is odd.", "Yes,no,maybe.", "We agree， they said.", "This costs 5$ now.", "It was  spaced oddly.", "Wait.... what.", "the U.S.A is big",
 ]
 CLEAN = ["That is all for now.", "Nothing else happened today.", "The rest went well."]
 EXTRA = ["One more fine paragraph follows here.", "Another calm sentence closes the text."]
@@ -85,8 +87,12 @@ def one_history(workdir, rng, findings, stats):
             flagged = cur_text[a:b]
             trace.append({"op": "HarperIgnoreLint", "span": [a, b], "message": msg, "flagged": flagged})
             n = s.n_publishes(uri)
-            s.command("HarperIgnoreLint", cmd["arguments"])
-            s.pump(lambda: s.n_publishes(uri) > n, 30)
+            s.command("HarperIgnoreLint", cmd["arguments"])  # waits for the response
+            try:
+                s.pump(lambda: s.n_publishes(uri) > n, 10)
+            except client.Timeout:
+                # the command was answered but nothing was published: what the editor shows is what it showed before
+                trace.append({"note": "the server answered HarperIgnoreLint but published no new diagnostics"})
             d1 = decode(cur_text, s.last_diagnostics(uri))
             stats["ignores"] += 1
             ignored.append((msg, flagged))
@@ -145,7 +151,7 @@ def run(tier, seed, scale, verif):
     rng = random.Random(seed * 1009 + 14)
     base = os.path.join(verif, "target", "run", "c14ls")
     shutil.rmtree(base, ignore_errors=True)
-    n = int((120 if tier == "quick" else 4000) * scale) or 1
+    n = int((300 if tier == "quick" else 5000) * scale) or 1
     seeds = [rng.getrandbits(48) for _ in range(n)]
     findings, inconclusive = [], []
     stats = {"documents": 0, "ignores": 0, "edits": 0, "no_command": 0}
